@@ -375,7 +375,8 @@ def general(rng, *, n=None, con=None, bound_patterns=None, x0_where=None,
     if bound_patterns != "none" and (bound_patterns is not None
                                      or rng.random() < 0.75):
         lb, ub, pats = bounds(rng, n, x0, bound_patterns, radius=radius)
-        form = str(rng.choice(["Bounds", "array"]))
+        form = str(rng.choice(["Bounds", "array", "list", "tuple"],
+                              p=[0.4, 0.3, 0.15, 0.15]))
         spec["bounds"] = {"lb": lb.tolist(), "ub": ub.tolist(), "form": form,
                           "patterns": pats}
         x0, where = place_x0(rng, x0, lb, ub, x0_where)
